@@ -38,6 +38,7 @@ def builder_env(te: TermEval, phsp=None):
 
 def run(ctx: Check, tree: Tree) -> None:
     ctx.decided += [
+        "R-TERM (shared with C13): the variable set handed to the builders carries the masses and the L of that decay node (fallbacks only where the transition specifies no L)",
         "EnergyDependentWidth.evaluate at s = mass0^2 normalises to gamma0 for every phase-space factor and L (ff/ff0 and rho/rho0 become identical applications)",
         "_formulate_blatt_weisskopf(L, z=1) normalises to 1; FormFactor = sqrt(BlattWeisskopfSquared(q^2(s,m1,m2) * d^2, L))",
         "both branches of BlattWeisskopfSquared.evaluate come from _formulate_blatt_weisskopf (the polynomial cache is derived from it)",
@@ -89,6 +90,9 @@ def run(ctx: Check, tree: Tree) -> None:
 
     # ---- builder API == function API
     ctx.section(check_builder, ctx, tree, te)
+    from .c13 import check_variable_set
+
+    ctx.section(check_variable_set, ctx, tree)
 
 
 def check_single_source(ctx: Check, tree: Tree) -> None:
